@@ -13,7 +13,10 @@ pub fn check(p: &Pos, rep: &mut Report, rng: &mut StdRng, foreign: &mut Vec<Stri
     let legal = p.legal_moves();
     let legal_set: std::collections::BTreeSet<String> = legal.iter().map(|m| m.uci()).collect();
     let wants: Vec<(String, String, u8)> = legal.iter().map(|m| (m.uci(), san::san(p, *m), san::disambiguation_kind(p, *m))).collect();
-    let foreign_now: Vec<String> = foreign.iter().rev().take(6).cloned().collect();
+    let mut foreign_now: Vec<String> = foreign.iter().rev().take(6).cloned().collect();
+    // castling text is standard SAN in every position; where no castle is legal it denotes nothing
+    foreign_now.push("O-O".to_string());
+    foreign_now.push("O-O-O".to_string());
     let mut handle_mismatch: Vec<(String, String, String)> = Vec::new();
     let r = guarded_mut(|| {
         let mut bb = load(p)?;
@@ -113,9 +116,20 @@ pub fn check(p: &Pos, rep: &mut Report, rng: &mut StdRng, foreign: &mut Vec<Stri
         match b {
             Err(pm) => rep.violation(&format!("pgn_to_bb-{}", panic_sig(&pm)), format!("pgn_to_bb({:?}) panicked in {}: {}", t, fen, pm), replay),
             Ok(Ok(mv)) if !legal_set.contains(&mv) => rep.violation("pgn_to_bb-returns-illegal-move", format!("pgn_to_bb({:?}) = {} which is not legal in {}", t, mv, fen), replay),
-            Ok(_) => {
+            Ok(b) => {
                 if !d.is_empty() {
-                    rep.violation("pgn_to_bb-side-effect", format!("pgn_to_bb({:?}) changed {} of {}", t, d, fen), replay);
+                    rep.violation("pgn_to_bb-side-effect", format!("pgn_to_bb({:?}) changed {} of {}", t, d, fen), replay.clone());
+                }
+                // a legal move was returned: the text has to denote it (piece, target, promotion,
+                // castle kind and every source hint written in the text agree with the move);
+                // a text that denotes no legal move here has to be an error
+                if let Ok(mv) = b {
+                    rep.count("foreign_san_accepted");
+                    if let Some(why) = Mv::from_uci(&mv).and_then(|m| not_denoted(p, &t, m)) {
+                        rep.violation(&format!("pgn_to_bb-text-does-not-denote-move:{}", why), format!("pgn_to_bb({:?}) = {} in {}: the text does not denote that move ({})", t, mv, fen, why), replay);
+                    }
+                } else {
+                    rep.count("foreign_san_rejected");
                 }
             }
         }
@@ -129,4 +143,42 @@ pub fn check(p: &Pos, rep: &mut Report, rng: &mut StdRng, foreign: &mut Vec<Stri
             rep.sample(json!({"fen": fen, "move": u, "san": w, "disambiguation": d}));
         }
     }
+}
+
+/// Why the SAN text `t` cannot denote the legal move `m` of `p` (None: it can). Only what the text
+/// says is compared: castle kind, piece letter, target square, promotion piece and the source file /
+/// rank / square written as disambiguation; capture mark and check suffix are not judged.
+pub fn not_denoted(p: &Pos, t: &str, m: Mv) -> Option<&'static str> {
+    let body = t.trim_end_matches(|c| c == '+' || c == '#' || c == '!' || c == '?');
+    let piece = p.b[m.from as usize].abs();
+    if body == "O-O" || body == "O-O-O" {
+        if !p.is_castle(m) { return Some("castle-text-for-non-castle"); }
+        let king_side = file_of(m.to) > file_of(m.from);
+        return if king_side == (body == "O-O") { None } else { Some("castle-wing") };
+    }
+    // "Kg1" for a castle is accepted by the code (king, target g1: what the text says does agree
+    // with the move); that leniency is not judged
+    if !body.is_ascii() { return Some("non-ascii"); }
+    let (body, promo) = match body.find('=') {
+        Some(i) => (&body[..i], match &body[i + 1..] { "N" => N, "B" => B, "R" => R, "Q" => Q, _ => return Some("promotion-letter") }),
+        None => (body, 0),
+    };
+    if promo != m.promo { return Some("promotion"); }
+    let (letter, rest) = match body.chars().next() {
+        Some('N') => (N, &body[1..]), Some('B') => (B, &body[1..]), Some('R') => (R, &body[1..]),
+        Some('Q') => (Q, &body[1..]), Some('K') => (K, &body[1..]), _ => (P, body),
+    };
+    if letter != piece { return Some("piece"); }
+    if rest.len() < 2 { return Some("shape"); }
+    let (hint, target) = rest.split_at(rest.len() - 2);
+    if sq_from_name(target) != Some(m.to) { return Some("target"); }
+    for c in hint.chars() {
+        match c {
+            'x' => {}
+            'a'..='h' => if (c as u8 - b'a') as i32 != file_of(m.from) { return Some("source-file"); },
+            '1'..='8' => if (c as u8 - b'1') as i32 != rank_of(m.from) { return Some("source-rank"); },
+            _ => return Some("shape"),
+        }
+    }
+    None
 }
